@@ -297,6 +297,15 @@ class AsyncConnectionPool(AsyncRequestInterface):
                 # log: "closing idle connection"
                 self._connections.remove(connection)
                 closing_connections.append(connection)
+            elif not connection.is_idle() and not any(
+                request.connection is connection for request in self._requests
+            ):
+                # A connection that is in use always has a request assigned to it.
+                # This one was left behind by a request that failed or was
+                # cancelled before the connection got as far as handling it.
+                # log: "closing unused connection"
+                self._connections.remove(connection)
+                closing_connections.append(connection)
 
         # Assign queued requests to connections.
         queued_requests = [request for request in self._requests if request.is_queued()]
